@@ -242,6 +242,10 @@ pub struct Workload {
     /// (C10, multi-thread slice) a call made on the same simulated main thread before this one.
     #[serde(default, skip_serializing_if = "Option::is_none")]
     pub pre: Option<Box<PreCall>>,
+    /// the samples are delivered by the library's own `MemSource` (wrapped by the simulated source, which
+    /// only keeps the books); plain workloads only: integer delivery, whole blocks, a true length hint
+    #[serde(default, skip_serializing_if = "std::ops::Not::not")]
+    pub via_mem: bool,
 }
 
 #[derive(Serialize, Deserialize, Clone, Debug, PartialEq)]
@@ -502,6 +506,7 @@ pub fn gen(purpose: Purpose, tier: Tier, seed: u64, index: u64) -> Workload {
         pre_reads: 0,
         synthetic_silence: false,
         pre: None,
+        via_mem: false,
     };
     // A small Rice-parameter cap on loud wide samples makes the library build
     // multi-megabyte unary runs per frame (slow, memory hungry) without adding
@@ -595,6 +600,30 @@ pub fn gen(purpose: Purpose, tier: Tier, seed: u64, index: u64) -> Workload {
         if w.workers.is_none() {
             w.workers = Some(2 + r.below(3));
             w.env_workers = None;
+        }
+    }
+    // many workers / odd-but-plausible values of the environment override (own PRNG stream, so that the
+    // classes above keep their draws): more workers than frames, worker counts around 16/32/64 (2*W frame
+    // buffers, W stop tokens), and values that parse with a sign, leading zeros or not at all.
+    {
+        let mut r2 = Rng::new(mix(mix(seed, index), 0x8A11_0001));
+        let simple = w.nfull <= 12 && w.block <= 576 && !w.synthetic_silence;
+        if simple && r2.chance(0.04) {
+            w.workers = Some(*r2.pick(&[5usize, 8, 9, 15, 16, 17, 31, 32, 33, 64]));
+            w.env_workers = if r2.chance(0.2) { Some((*r2.pick(&["1", "0", "x"])).to_owned()) } else { None };
+            w.nfull = r2.below(7);
+            if w.block > 257 {
+                w.block = 64;
+                w.residue = w.residue.min(63);
+            }
+        } else if simple && r2.chance(0.03) {
+            w.workers = None;
+            w.env_workers = Some((*r2.pick(&["+2", "003", "2 ", "\t3", "2\n", "1.0", "0x2", "5", "9", "17", "1e1", "-0", "+0", "00"])).to_owned());
+            w.nfull = w.nfull.min(6);
+            if w.block > 257 {
+                w.block = 128;
+                w.residue = w.residue.min(127);
+            }
         }
     }
     // the configuration's own block_size field is independent of the argument the entry point is called with
@@ -725,6 +754,22 @@ pub fn gen(purpose: Purpose, tier: Tier, seed: u64, index: u64) -> Workload {
             }
         }
     }
+    // a quarter of the plain fault-free workloads are delivered by the library's own `MemSource`
+    {
+        let mut r3 = Rng::new(mix(mix(seed, index), 0x8A11_0002));
+        if matches!(purpose, Purpose::Equivalence | Purpose::StreamInfo)
+            && w.delivery == 0
+            && !w.short_reads
+            && w.probe_reads.is_empty()
+            && w.faults.is_empty()
+            && !w.synthetic_silence
+            && w.len_hint_off == 0
+            && r3.chance(0.5)
+        {
+            w.via_mem = true;
+            w.len_hint = true;
+        }
+    }
     w
 }
 
@@ -851,6 +896,7 @@ pub fn fresh_small(r: &mut Rng) -> Workload {
         pre_reads: 0,
         synthetic_silence: false,
         pre: None,
+        via_mem: false,
     };
     if w.nfull == 0 && w.residue == 0 && r.chance(0.7) {
         w.residue = 1 + r.below(w.block - 1);
